@@ -26,14 +26,14 @@ type VerifBatch struct {
 	Deleted    []uint64 // deletedPointsIds, in order
 	Touched    []uint64 // toRemoveInBoundNodeIds, ascending
 	MaxNodeId  uint64
-	// The node store at that moment. Only taken when Touched is not empty: the
-	// EdgeScan that follows immediately loads the whole graph in the same way,
-	// so taking it does not change what the index has cached.
+	// What EdgeScan returned, in its order, and the node store at that moment
+	// (= the graph the insert workers left: EdgeScan only reads). Taken right
+	// after EdgeScan, which has loaded every node into the cache, so taking it
+	// reads nothing from the bucket.
+	Scanned  bool
 	MidNodes map[uint64][]uint64
-	// What EdgeScan returned, in its order
-	Scanned bool
-	ToPrune []uint64
-	ToSave  []uint64
+	ToPrune  []uint64
+	ToSave   []uint64
 }
 
 var (
@@ -104,7 +104,17 @@ func (v *IndexVamana) verifClassified(updated, deleted, touched, inserted any) {
 	b.Updated = verifIds(updated)
 	b.Deleted = verifIds(deleted)
 	b.MaxNodeId = v.maxNodeId.Load()
-	if len(b.Touched) > 0 {
+}
+
+func (v *IndexVamana) verifEdgeScan(toPrune, toSave any) {
+	verifBatchMu.Lock()
+	defer verifBatchMu.Unlock()
+	if b := verifBatchCur; b != nil {
+		b.Scanned = true
+		b.ToPrune = verifIds(toPrune)
+		b.ToSave = verifIds(toSave)
+		// EdgeScan has just loaded every node (isAllInCache): this ForEach touches no bucket, so it
+		// can neither fail nor shift the position of a storage fault a harness injects
 		b.MidNodes = make(map[uint64][]uint64)
 		v.nodeStore.ForEach(func(id uint64, node *graphNode) error {
 			node.edgesMu.RLock()
@@ -112,15 +122,5 @@ func (v *IndexVamana) verifClassified(updated, deleted, touched, inserted any) {
 			node.edgesMu.RUnlock()
 			return nil
 		})
-	}
-}
-
-func verifEdgeScan(toPrune, toSave any) {
-	verifBatchMu.Lock()
-	defer verifBatchMu.Unlock()
-	if b := verifBatchCur; b != nil {
-		b.Scanned = true
-		b.ToPrune = verifIds(toPrune)
-		b.ToSave = verifIds(toSave)
 	}
 }
